@@ -96,4 +96,4 @@ pub struct LeafData {
 
 #[cfg(kani)]
 #[path = "/verif/units/kani/core_trie.rs"]
-mod verif_kani;
+pub(crate) mod verif_kani;
